@@ -395,8 +395,8 @@ def misc(ctx, al):
 
 
 def hub_of_hub(ctx, al):
-    """A thub whose data is one use of another thub: a NEW hub handing out exactly n uses (each the whole sequence),
-    then IndexError; the inner hub has spent exactly one use."""
+    """A thub whose data is another thub: a hub handing out exactly n uses (each the whole sequence), then IndexError;
+    whatever uses the inner hub still has are whole sequences too."""
     seq = [5, -2, 0, 7, 7, 1]
     for k in (1, 2, 3):
         for n in (1, 2, 3):
@@ -426,9 +426,11 @@ def hub_of_hub(ctx, al):
             except Exception as ex:                     # noqa: the statement promises values
                 ctx.violation("C03:hub-of-hub:raises", dict(info, error="%s: %s" % (type(ex).__name__, str(ex)[:100])))
                 continue
-            if any(g != seq for g in got) or extra or left != k - 1 or (outer is inner):
+            # (how many uses the INNER hub has left afterwards is not fixed by C03 - spending one of them on the
+            # outer hub is what the code does, taking a copy would be as good: logged, not demanded)
+            if any(g != seq for g in got) or extra:
                 ctx.violation("C03:hub-of-hub", dict(info, uses=got, note=extra, inner_uses_left=left,
-                                                     expected_inner_left=k - 1, same_object=outer is inner))
+                                                     same_object=outer is inner))
 
 
 def check(ctx):
